@@ -145,7 +145,7 @@ def vtExprConv (e : Endian) (enc : Op.Encoding) (bs : Bytes) (m : List ExEntry) 
   if ConvUnit.vtableRaw bs then s!"ok {toHex bs}" else exprConv e enc bs m tab
 
 def handle (op : String) (args : List String) : Option String :=
-  if op == "c12-dwarf" || op == "c12-frame" then some "ok *"
+  if op == "c12-dwarf" || op == "c12-frame" || op == "c12-lineenc" then some "ok *"
   else match op, args with
     | "c12-lineaddr", [is] => lineAddr is
     | "c12-cfiarith", [caf, daf, delta, f] => do
